@@ -5119,16 +5119,17 @@ class Entity(object, metaclass=EntityMeta):
             undo_funcs = []
             undo = []
             def undo_func():
-                obj._status_ = status
-                obj._wbits_ = wbits
-                if status in ('loaded', 'inserted', 'updated'):
+                if obj._status_ != status:  # the object was queued for update above
                     assert objects_to_save
                     obj2 = objects_to_save.pop()
                     assert obj2 is obj and obj._save_pos_ == len(objects_to_save)
                     obj._save_pos_ = None
+                obj._status_ = status
+                obj._wbits_ = wbits
                 for cache_index, old_key, new_key in undo:
                     if new_key is not None: del cache_index[new_key]
                     if old_key is not None: cache_index[old_key] = obj
+            undo_funcs.append(undo_func)
             try:
                 for attr in obj._simple_keys_:
                     if attr not in avdict: continue
@@ -5150,7 +5151,7 @@ class Entity(object, metaclass=EntityMeta):
                 for attr, new_val in collection_avdict.items():
                     attr.__set__(obj, new_val, undo_funcs)
             except:
-                for undo_func in undo_funcs: undo_func()
+                for undo_func in reversed(undo_funcs): undo_func()
                 raise
         obj._vals_.update(avdict)
     def _keyargs_to_avdicts_(obj, kwargs):
